@@ -85,7 +85,7 @@ CHECKS = [
              "one row per calendar period and the partition law are exercised by the bounded part",
      "not_covered": ["pandas' binning of resample('MS'/'2MS') itself"],
      },
-    {"id": "C05", "level": "proof", "modules": ["contracts.C07_mask"], "bounded": ["bounded.C05_independence", "bounded.pandas_contracts"],
+    {"id": "C05", "level": "proof", "modules": ["contracts.C07_mask", "contracts.C05_prepare"], "bounded": ["bounded.C05_independence", "bounded.pandas_contracts"],
      "technique": "deductive verification (row-wise symbolic execution of the real daily _predict: free symbols of the predicted cells) + bounded paired predictions of real hourly/CalTRACK models",
      "text": "Proof (daily/billing): the symbolic per-row expressions of predicted / predicted_unc / heating_load / cooling_load returned by the "
              "real _predict contain no symbol of the row's observed cell, for every split layout; observed only decides whether the row is "
